@@ -12,6 +12,8 @@ pub enum Token {
     U16(u16),
     U32(u32),
     U64(u64),
+    /// an `Option<u32>` element (one token per record field keeps the positional contract simple)
+    OptU32(Option<u32>),
     TupleStart(usize),
     TupleEnd,
     /// an element no type can be decoded from
@@ -99,8 +101,15 @@ impl<'a> ser::Serializer for Ser<'a> {
     fn serialize_char(self, _v: char) -> Result<(), FmtError> { Err(FmtError::Unsupported) }
     fn serialize_str(self, _v: &str) -> Result<(), FmtError> { Err(FmtError::Unsupported) }
     fn serialize_bytes(self, _v: &[u8]) -> Result<(), FmtError> { Err(FmtError::Unsupported) }
-    fn serialize_none(self) -> Result<(), FmtError> { Err(FmtError::Unsupported) }
-    fn serialize_some<T: ?Sized + ser::Serialize>(self, _value: &T) -> Result<(), FmtError> { Err(FmtError::Unsupported) }
+    fn serialize_none(self) -> Result<(), FmtError> { self.out.push(Token::OptU32(None)) }
+    fn serialize_some<T: ?Sized + ser::Serialize>(self, value: &T) -> Result<(), FmtError> {
+        let mut inner = Buf::new();
+        value.serialize(Ser { out: &mut inner })?;
+        match (inner.len, inner.toks[0]) {
+            (1, Token::U32(v)) => self.out.push(Token::OptU32(Some(v))),
+            _ => Err(FmtError::Unsupported),
+        }
+    }
     fn serialize_unit(self) -> Result<(), FmtError> { Err(FmtError::Unsupported) }
     fn serialize_unit_struct(self, _name: &'static str) -> Result<(), FmtError> { Err(FmtError::Unsupported) }
     fn serialize_unit_variant(self, _n: &'static str, _i: u32, _v: &'static str) -> Result<(), FmtError> { Err(FmtError::Unsupported) }
@@ -164,6 +173,14 @@ impl<'de, 'a, 'b> de::Deserializer<'de> for De<'a, 'b> {
         }
     }
 
+    fn deserialize_option<V: de::Visitor<'de>>(mut self, visitor: V) -> Result<V::Value, FmtError> {
+        match self.next()? {
+            Token::OptU32(None) => visitor.visit_none(),
+            Token::OptU32(Some(v)) => visitor.visit_some(de::value::U32Deserializer::<FmtError>::new(v)),
+            _ => Err(FmtError::BadToken),
+        }
+    }
+
     fn deserialize_tuple<V: de::Visitor<'de>>(mut self, len: usize, visitor: V) -> Result<V::Value, FmtError> {
         // a self-describing format knows how many elements the sequence really holds; the other
         // kind trusts the caller's `len`
@@ -182,7 +199,7 @@ impl<'de, 'a, 'b> de::Deserializer<'de> for De<'a, 'b> {
 
     serde::forward_to_deserialize_any! {
         bool i8 i16 i32 i64 i128 u8 u16 u32 u64 u128 f32 f64 char str string
-        bytes byte_buf option unit unit_struct newtype_struct seq
+        bytes byte_buf unit unit_struct newtype_struct seq
         tuple_struct map struct enum identifier ignored_any
     }
 }
